@@ -200,17 +200,32 @@ class KindFamily(Family):
     corr = "corr_kind"
     oracle = "oracle_kind"
     n_quick = n_thorough = 1
-    rule = "exhaustive: {|,&} x {timeline, filter}^2"
+    rule = ("exhaustive: {|,&} x operand shapes^2; timelines: stored, union, intersection, complement, filtered, "
+            "buffered; filters: comparison, one_of, Or / And of filters built left- and right-nested")
+
+    SHAPES = ["t", "t_or", "t_and", "t_inv", "t_filt", "t_buf",
+              "f", "f_oneof", "f_or", "f_and", "f_or_l", "f_or_r", "f_and_or"]
 
     def gen(self, rng, tier, n):
         for op in ("or", "and"):
-            for l in ("t", "f"):
-                for r in ("t", "f"):
+            for l in self.SHAPES:
+                for r in self.SHAPES:
                     yield dict(op=op, l=l, r=r)
 
     def run_impl(self, case):
+        from calgebra import buffer, one_of, field
         from calgebra.core import Filter, Timeline
-        mk = {"t": lambda: timeline(Interval(start=0, end=10)), "f": lambda: hours >= 1}
+        from calgebra.properties import end as p_end, start as p_start
+        tl0 = lambda: timeline(Interval(start=0, end=10))          # noqa: E731
+        f0 = lambda: hours >= 1                                     # noqa: E731
+        f1 = lambda: p_start >= 0                                   # noqa: E731
+        f2 = lambda: p_end <= 5                                     # noqa: E731
+        mk = {"t": tl0, "t_or": lambda: tl0() | tl0(), "t_and": lambda: tl0() & tl0(), "t_inv": lambda: ~tl0(),
+              "t_filt": lambda: tl0() & f0(), "t_buf": lambda: buffer(tl0(), before=1),
+              "f": f0, "f_oneof": lambda: one_of(field("x"), [1, 2]),
+              "f_or": lambda: f1() | f2(), "f_and": lambda: f1() & f2(),
+              "f_or_l": lambda: (f1() | f2()) | f0(), "f_or_r": lambda: f0() | (f1() | f2()),
+              "f_and_or": lambda: (f1() & f2()) | f0()}
         l, r = mk[case["l"]](), mk[case["r"]]()
         try:
             res = (l | r) if case["op"] == "or" else (l & r)
@@ -219,7 +234,7 @@ class KindFamily(Family):
         return ["timeline" if isinstance(res, Timeline) else "filter" if isinstance(res, Filter) else "other"]
 
     def coq_case(self, case, obs):
-        k = {"t": "KTimeline", "f": "KFilter"}
+        k = {sh: ("KTimeline" if sh.startswith("t") else "KFilter") for sh in self.SHAPES}
         o = {"TypeError": "None", "timeline": "(Some KTimeline)", "filter": "(Some KFilter)"}.get(obs[0], "(Some KFilter)")
         return f"(mkKC {cbool(case['op'] == 'or')} {k[case['l']]} {k[case['r']]} {o})"
 
